@@ -136,8 +136,30 @@ pub fn step(w: &mut World, e: &Value) -> Value {
 }
 
 /// run one behaviour in a fresh world; returns ndjson lines
+/// a behaviour may start with {"ev": "setup", ..}: its fields override the run's setup
+/// (behaviours generated from model configurations with different initial worlds)
+pub fn own_setup(setup: &Value, beh: &[Value]) -> (Value, usize) {
+	match beh.first() {
+		Some(f) if f["ev"] == "setup" => {
+			let mut s = setup.clone();
+			if let (Some(m), Some(o)) = (s.as_object_mut(), f.as_object()) {
+				for (k, v) in o.iter() {
+					if k != "ev" && k != "eff" {
+						m.insert(k.clone(), v.clone());
+					}
+				}
+			}
+			(s, 1)
+		}
+		_ => (setup.clone(), 0),
+	}
+}
+
 pub fn run_behaviour(dir: &str, setup: &Value, beh: &[Value], bid: usize) -> Vec<String> {
 	let mut out = vec![];
+	let (setup, skip) = own_setup(setup, beh);
+	let setup = &setup;
+	let beh = &beh[skip..];
 	let mut w = setup_world(dir, setup);
 	let obs = w.obs();
 	out.push(json!({"ev": "reset", "b": bid, "setup": setup, "res": "ok", "obs": obs}).to_string());
